@@ -1,6 +1,8 @@
 // Package verifsync provides a mutex whose blocking is durable for
 // testing/synctest (a goroutine waiting for it can only be released from
-// inside the bubble), with the semantics of sync.Mutex otherwise. The
+// inside the bubble), with the semantics of sync.Mutex otherwise (no FIFO
+// hand-off: like sync.Mutex in normal mode, a running goroutine can take a
+// mutex that was just released ahead of goroutines already waiting for it). The
 // instrumenter substitutes it for the few sync.Mutex fields of the system
 // under test that are held across a blocking operation.
 package verifsync
@@ -11,37 +13,67 @@ import (
 )
 
 type Mutex struct {
-	once sync.Once
-	ch   chan struct{}
+	mu      sync.Mutex // guards the fields below; never held across a blocking operation
+	held    bool
+	waiters []chan struct{}
 }
 
-func (m *Mutex) init() { m.once.Do(func() { m.ch = make(chan struct{}, 1) }) }
-
+// Lock has the semantics of sync.Mutex in its normal mode: a goroutine that finds the mutex free takes it, also
+// when others are already waiting ("barging"); an unlock wakes one waiter, which then competes again. A waiter
+// blocks on a channel of its own, which is durable blocking for testing/synctest.
 func (m *Mutex) Lock() {
-	m.init()
 	if Yield != nil {
 		Yield()
 	}
-	m.ch <- struct{}{}
+	for {
+		m.mu.Lock()
+		if !m.held {
+			m.held = true
+			m.mu.Unlock()
+			return
+		}
+		ch := make(chan struct{})
+		m.waiters = append(m.waiters, ch)
+		m.mu.Unlock()
+		<-ch
+	}
 }
 
 func (m *Mutex) Unlock() {
-	m.init()
-	select {
-	case <-m.ch:
-	default:
+	m.mu.Lock()
+	if !m.held {
+		m.mu.Unlock()
 		panic("verifsync: unlock of unlocked mutex")
+	}
+	m.held = false
+	var ch chan struct{}
+	if n := len(m.waiters); n > 0 {
+		i := 0
+		if pointOn && n > 1 {
+			x := pointState
+			x ^= x << 13
+			x ^= x >> 7
+			x ^= x << 17
+			pointState = x
+			i = int(x>>33) % n
+		}
+		ch = m.waiters[i]
+		m.waiters = append(m.waiters[:i], m.waiters[i+1:]...)
+	}
+	m.mu.Unlock()
+	if ch != nil {
+		close(ch)
 	}
 }
 
 func (m *Mutex) TryLock() bool {
-	m.init()
-	select {
-	case m.ch <- struct{}{}:
-		return true
-	default:
+	m.mu.Lock()
+	defer m.mu.Unlock()
+	if m.held {
 		return false
 	}
+	m.held = true
+	return true
 }
 
 // Yield, when set by the harness, is called before every acquisition.
